@@ -195,6 +195,22 @@ def run(ctx):
                              'bsum': [int(v) for v in beta.sum(axis=0)], 'alpha': alpha, 'cdiffsurface': opts['cdiffsurface'],
                              'ge': Eg.flatten().astype(int).tolist(), 'gk': gk, 'tol': 2, 'ongrid': bool(ok),
                              **{k_: int(round(v)) for k_, v in vals.items()}, 'total': int(round(tot * 1024))})
+            # repeated evaluation on one object, with the stress term computed both ways: nothing kept on the object may change
+            for fs_ in (True, False):
+                tau0 = tau.copy()
+                pr = SDVPN(volterra=vol, gamma=gs, tau=tau0, alpha=alpha, beta=beta, **dict(opts, fullstress=fs_))
+                dq = rng.integers(-16, 17, (N, 3)) / 8.0
+                e_a = pr.stress_energy(xs, dq)
+                kept1 = bool(np.array_equal(pr.tau, tau) and np.array_equal(tau0, tau))        # after ONE evaluation
+                e_b = pr.stress_energy(xs, dq)
+                e_c = pr.total_energy(xs, dq)
+                e_d = pr.total_energy(xs, dq)
+                first, second = (e_a, e_c), (e_b, e_d)
+                pneg = SDVPN(volterra=vol, gamma=gs, tau=-tau, alpha=alpha, beta=beta, **dict(opts, fullstress=fs_))
+                scr = S / max(abs(first[0]), abs(first[1]), 1e-12) / 8
+                recs.append({'ev': 'pnrepeat', 'tag': tag + (':fullstress' if fs_ else ':normalstress'), 'first': [int(round(v * scr)) for v in first],
+                             'second': [int(round(v * scr)) for v in second], 'neg': int(round(pneg.stress_energy(xs, dq) * scr)),
+                             'taukept': bool(kept1 and np.array_equal(pr.tau, tau) and np.array_equal(tau0, tau)), 'tol': 2})
             # quadratic-form laws of the elastic term
             da = rng.integers(-16, 17, (N, 3)) / 8.0
             db = rng.integers(-16, 17, (N, 3)) / 8.0
@@ -222,9 +238,15 @@ def run(ctx):
             # solve: never raises the energy, keeps the end values
             if pi < (2 if quick else 8):
                 xs2, d0 = pn_arctan_disregistry(xmax=10, xnum=21, burgers=bdir * np.linalg.norm(vol.burgers), halfwidth=1.5)
-                pn2 = SDVPN(volterra=vol, gamma=gs, tau=np.zeros((3, 3)), alpha=[0.0], beta=np.zeros((3, 3)), **opts)
+                # every other problem carries a strong surface (gradient) term: the solver has to minimise the WHOLE energy
+                bet = np.zeros((3, 3)) if pi % 2 else np.diag([uc.set_in_units(300.0, 'GPa*angstrom')] * 3)
+                pn2 = SDVPN(volterra=vol, gamma=gs, tau=np.zeros((3, 3)), alpha=[0.0], beta=bet, **opts)
+                if not pi % 2:
+                    # start from the arctan profile of lowest TOTAL energy: from there a solver that leaves a term out of its objective goes uphill
+                    cands = [pn_arctan_disregistry(xmax=10, xnum=21, burgers=bdir * np.linalg.norm(vol.burgers), halfwidth=hw_) for hw_ in (0.4, 0.7, 1.0, 1.5, 2.2, 3.3, 5.0, 7.5)]
+                    xs2, d0 = min(cands, key=lambda xd: pn2.total_energy(xd[0], xd[1]))
                 before = pn2.total_energy(xs2, d0)
-                pn2.solve(x=xs2, disregistry=d0.copy(), min_options={'maxiter': 2, 'maxfev': 400})
+                pn2.solve(x=xs2, disregistry=d0.copy(), min_options={'maxiter': 2 if pi % 2 else 12, 'maxfev': 400 if pi % 2 else 2500})
                 after = pn2.total_energy()
                 d1 = pn2.disregistry
                 recs.append({'ev': 'pnsolve', 'tag': tag, 'before': int(round(before * S)), 'after': int(round(after * S)), 'tol': 2,
@@ -249,6 +271,20 @@ def run(ctx):
                 e0 = min(es)
                 recs.append({'ev': 'pnwidth', 'tag': tag, 'e': [int(round((v - e0) / max(abs(e0), 1e-12) * (1 << 24))) for v in es], 'slackidx': 1,
                              'zeta': float(zeta)})
+                # solve with a strong gradient (surface) term on the smooth misfit law, started from the arctan profile of lowest TOTAL
+                # energy: a minimiser whose objective is the whole energy cannot end above its start
+                bet = np.zeros((3, 3))
+                bet[0, 0] = bet[2, 2] = uc.set_in_units(400.0, 'GPa*angstrom')
+                pnb = SDVPN(volterra=vol, gamma=gsin, beta=bet, cdiffelastic=False, min_method='Powell', min_options={'maxiter': 3, 'xtol': 1e-4, 'ftol': 1e-8})
+                cands = [pn_arctan_disregistry(xmax=6 * bmag, xnum=25, burgers=bdir * bmag, halfwidth=zeta * 2 ** (j / 2)) for j in range(-2, 7)]
+                xb, db = min(cands, key=lambda xd: pnb.total_energy(xd[0], xd[1]))
+                before = pnb.total_energy(xb, db)
+                pnb.solve(x=xb, disregistry=db.copy())
+                after = pnb.total_energy()
+                d1 = pnb.disregistry
+                recs.append({'ev': 'pnsolve', 'tag': tag + ':surface_term', 'before': int(round(before * S)), 'after': int(round(after * S)), 'tol': 2,
+                             'first0': [int(round(v * S)) for v in db[0]], 'first1': [int(round(v * S)) for v in d1[0]],
+                             'last0': [int(round(v * S)) for v in db[-1]], 'last1': [int(round(v * S)) for v in d1[-1]]})
         except Exception as e:
             import traceback
             tb = traceback.extract_tb(e.__traceback__)[-1]
